@@ -1,6 +1,6 @@
-(* Extraction of the C09 E3 adapter: ExtrOcamlBasic only. *)
+(* Extraction of the C09 E3 adapters (buffered: e3_expand; unbuffered: e3u_expand): ExtrOcamlBasic only. *)
 From Coq Require Import ZArith List.
-From PV Require Import Base.U64 C09.C09_Common C09.C09_Buf C09.C09_E3.
+From PV Require Import Base.U64 C09.C09_Common C09.C09_Buf C09.C09_E3 C09.C09_Unbuf C09.C09_E3U.
 Require Extraction.
 Require Import ExtrOcamlBasic.
-Extraction "c09_e3_model.ml" e3_expand.
+Extraction "c09_e3_model.ml" e3_expand e3u_expand.
